@@ -64,6 +64,7 @@ def run(prog: Program, rep: Report, tier: str):
     rule_bisect(prog, rep)
     rule_adapt(prog, rep)
     rule_driver(prog, rep)
+    rule_inverter(prog, rep)
     if tier == "thorough":
         from ..audit import audit_generic
         audit_generic(prog, rep, "C10")
@@ -310,3 +311,32 @@ def rule_driver(prog, rep):
             okp = all(kw.get(n) == s for n, s in (("lower", LO), ("upper", UP), ("tol", TOL), ("max_iter", MI)))
             rep.check(okp, "C10.driver", site, "driver:search-parameters-forwarded", "lower, upper, tol, max_iter forwarded",
                       f"search called with {show(calls[0], 240)}")
+
+
+def rule_inverter(prog, rep):
+    """The public inverter hands its own lower / upper / tol / max_iter, the bijection's transform minus y and
+    shape[0] to the driver (re-uses the C01.iter obligations on AutoregressiveBisectionInverter.__call__)."""
+    from ..core import Report as _R
+    from . import c01_iter
+    rep.rule("C10.inverter", "AutoregressiveBisectionInverter.__call__ searches the root of transform(x, condition) - y "
+                             "over shape[0] coordinates with exactly the configured lower, upper, tol and max_iter "
+                             "(the requested tolerance is not altered on the way)", minimum=6)
+    sub = _R(rep.pid, rep.tier)
+    sub.rule("C01.iter", "", 0)
+    c01_iter.rule_iter(prog, sub)
+    for o in sub.obs:
+        if o.key.startswith("inverter:"):
+            rep.add("C10.inverter", o.site, o.key, o.verdict, o.detail)
+    c = prog.cls("flowjax.bisection_search.AutoregressiveBisectionInverter")
+    from .c13 import guard_list
+    it = Interp(prog)
+    it.eval_method(c, "__check_init__", [])
+    gl = guard_list(it)
+    from ..terms import mk_not
+    wants = {"lower<upper": mk_not(("cmp", "<", ("attr", ("sym", "self"), "lower"), ("attr", ("sym", "self"), "upper"))),
+             "tol>0": ("cmp", "<=", ("attr", ("sym", "self"), "tol"), C(0)),
+             "max_iter>=0": ("cmp", "<", ("attr", ("sym", "self"), "max_iter"), C(0))}
+    from .bij import method_site
+    for name, w in wants.items():
+        rep.check(any(equal(g[0], w) for g in gl), "C10.inverter", method_site(prog, c, "__check_init__"),
+                  f"inverter:rejects-not({name})", f"raises unless {name}", f"no guard enforcing {name}")
